@@ -42,6 +42,9 @@ type SOp struct {
 	Tape   []uint64 `json:"tape,omitempty"`    // map-order tape
 	New    *ObjSpec `json:"new,omitempty"`     // create
 	Mut    uint64   `json:"mut,omitempty"`     // mutate
+	// Scribble != 0: the caller edits the container Execute returned to it (adds
+	// or overwrites an entry); the result is the caller's to keep and to change
+	Scribble uint64 `json:"scribble,omitempty"`
 	// Jumps: the simulated clock jumps while this op runs (only matters if the
 	// library reads the clock or arms timers)
 	Jumps []verifsim.ClockJump `json:"clock_jumps,omitempty"`
